@@ -5,15 +5,28 @@ tree (spec/DocumentOps.tla) and compares it with the tokenised output."""
 from __future__ import annotations
 
 from ..core import Prop, cps
+from .. import gamma
 from .parse import tokenize
 
 NODEP = {"name": [], "vstr": [], "ver": [], "src": "none", "href": [], "metas": [], "links": [], "scripts": [], "head": []}
 
 
+def abstract_all(xs, H):
+    """Content as the statement sees it: a tagifiable object stands for its expansion (C09), spliced if a TagList."""
+    out = []
+    for x in xs:
+        if isinstance(x, gamma.Tfy):
+            r = x.tagify()
+            out.extend(abstract_all(list(r) if isinstance(r, H.TagList) else [r], H))
+        else:
+            out.append(abstract(x, H))
+    return out
+
+
 def abstract(x, H):
     if isinstance(x, H.Tag):
         return {"k": "tag", "name": x.name, "attrs": [{"n": k, "v": cps(str(v))} for k, v in x.attrs.items()],
-                "c": [abstract(c, H) for c in x.children], "t": [], "d": NODEP}
+                "c": abstract_all(list(x.children), H), "t": [], "d": NODEP}
     if isinstance(x, H.HTMLDependency):
         src = x.source
         kind = "none" if src is None else ("url" if "href" in src else "local")
@@ -21,7 +34,7 @@ def abstract(x, H):
              "src": kind, "href": cps(src["href"]) if kind == "url" else [],
              "metas": [{"n": cps(m["name"]), "c": cps(m["content"])} for m in x.meta],
              "links": [cps(s["href"]) for s in x.stylesheet], "scripts": [cps(s["src"]) for s in x.script],
-             "head": [abstract(c, H) for c in (x.head or [])]}
+             "head": abstract_all(list(x.head or []), H)}
         return {"k": "dep", "name": "", "attrs": [], "c": [], "t": [], "d": d}
     if isinstance(x, str):
         return {"k": "text", "name": "", "attrs": [], "c": [], "t": cps(x), "d": NODEP}
@@ -54,6 +67,12 @@ def build(x, H):
         return H.Tag(k, attrs, *[build(c, H) for c in x["c"]])
     if k == "text":
         return "t"
+    if k == "metacs":
+        return H.tags.meta(charset="latin1")
+    if k == "tfyd":      # a tagifiable object whose expansion carries a dependency
+        return gamma.Tfy(lambda: H.TagList(H.tags.div("e"), mk_dep("d4", H)))
+    if k == "tfyt":      # ... expanding to a single tag with head_content inside
+        return gamma.Tfy(lambda: H.Tag("section", "s", mk_dep("hc2", H), mk_dep("d1", H)))
     return mk_dep(k, H)
 
 
@@ -91,10 +110,11 @@ class C11(Prop):
 
     def gens_random(self, tier, rnd):
         gens = []
-        kinds = ["html", "head", "body", "div", "span", "text", "d1", "d2", "d3", "d4", "d5", "hc", "hc2", "section"]
+        kinds = ["html", "head", "body", "div", "span", "text", "d1", "d2", "d3", "d4", "d5", "hc", "hc2", "section",
+                 "tfyd", "tfyt", "metacs"]
 
         def node(depth):
-            k = rnd.choice(kinds if depth < 4 else ["text", "d1", "d3", "hc", "d4"])
+            k = rnd.choice(kinds if depth < 4 else ["text", "d1", "d3", "hc", "d4", "tfyd", "metacs"])
             c = []
             if k in ("html", "head", "body", "div", "span", "section"):
                 c = [node(depth + 1) for _ in range(rnd.randint(0, 3))]
@@ -110,6 +130,14 @@ class C11(Prop):
             args = rnd.choice([[], [["lang", "en"]], [["id", "y"], ["lang", "en"]], [["class", "c d"]]])
             gens.append({"kind": "doc", "tree": {"k": "root", "c": top}, "args": args,
                          "prefix": rnd.choice(["lib", None, "a/b", "x"]), "inclver": rnd.random() < 0.5, "later": rnd.random() < 0.3})
+        leaf = lambda k: {"k": k, "c": []}
+        for headkids in (["metacs"], ["text", "metacs", "d1"], ["d3", "metacs", "hc"], ["tfyd"], ["section", "tfyt"]):
+            for pos in (0, 1, 2):
+                sibs = [leaf("div"), {"k": "body", "c": [leaf("text"), leaf("tfyd")]}]
+                sibs.insert(min(pos, len(sibs)), {"k": "head", "c": [leaf(k) for k in headkids]})
+                for top in ("html", "body", "div"):
+                    gens.append({"kind": "doc", "tree": {"k": "root", "c": [{"k": top, "c": sibs if top == "html" else [leaf("tfyt"), leaf("d2")]}]},
+                                 "args": [["lang", "en"]], "prefix": "lib", "inclver": True, "later": False})
         return gens
 
     def execute(self, g):
@@ -123,7 +151,7 @@ class C11(Prop):
             doc = H.HTMLDocument(*kids, **kw)
         res = doc.render(lib_prefix=g["prefix"], include_version=g["inclver"])
         out = res["html"]
-        return {"content": [abstract(k, H) for k in kids],
+        return {"content": abstract_all(kids, H),
                 "args": [{"n": k, "v": cps(str(v))} for k, v in g["args"]],
                 "prefix": cps(g["prefix"] or ""), "inclver": bool(g["inclver"]),
                 "events": tokenize(out), "doctypeFirst": out.startswith("<!DOCTYPE html>\n"),
